@@ -12,6 +12,8 @@ pub enum Case {
     History { key: String, iv: String, sizes: Vec<usize> },
     /// `total` words in `parts` equal requests
     Long { key: String, iv: String, total: usize, parts: usize },
+    /// every request of the history is served on a NEW thread (the generator is moved from thread to thread)
+    Migrating { key: String, iv: String, sizes: Vec<usize> },
 }
 
 fn h16(s: &str) -> [u8; 16] {
@@ -62,6 +64,35 @@ fn eval(ctx: &Ctx, case: &Case) {
                         ctx.outcome(&format!("ok/{}", split_class(sizes)));
                     }
                 }
+            }
+        }
+        Case::Migrating { key, iv, sizes } => {
+            let (k, v) = (h16(key), h16(iv));
+            let total: usize = sizes.iter().sum();
+            let want = zuc::keystream(&k, &v, total);
+            ctx.trace();
+            ctx.calls(sizes.len() as u64 + 1);
+            let r = guard(|| {
+                let mut z = gm_zuc::ZUC::new(&k, &v);
+                let mut out: Vec<u32> = Vec::new();
+                for s in sizes {
+                    let n = *s;
+                    let (z2, part) = std::thread::spawn(move || {
+                        let mut z = z;
+                        let p = z.generate_keystream(n);
+                        (z, p)
+                    })
+                    .join()
+                    .expect("worker");
+                    z = z2;
+                    out.extend(part);
+                }
+                out
+            });
+            match r {
+                Guard::Done(out) if out == want => ctx.outcome("ok/generator-moved-between-threads"),
+                Guard::Done(out) => ctx.violation(site, "keystream-mismatch/generator-moved-between-threads", format!("key={} iv={} sizes={:?} got={:08x?}", key, iv, sizes, &out[..out.len().min(4)]), cj()),
+                Guard::Panic(p) => ctx.violation(site, &format!("panic/{}", panic_site(&p)), p, cj()),
             }
         }
         Case::Long { key, iv, total, parts } => {
@@ -269,6 +300,11 @@ pub fn run(ctx: &Arc<Ctx>) {
         ctx.cov("key_iv_pairs_hitting_s16_zero_in_work_mode", json!({"in_corpus": pairs.len(), "confirmed_by_reference_branch_counter": confirmed}));
         if pairs.is_empty() || confirmed != pairs.len() {
             ctx.machinery_error(format!("corpus/zuc_s16_zero_work.json: {} pairs, {} confirmed", pairs.len(), confirmed));
+        }
+    }
+    for (k, v) in key_ivs(ctx) {
+        for sizes in [vec![1usize, 1, 1], vec![3, 0, 17, 2], vec![16, 16], vec![5]] {
+            eval(ctx, &Case::Migrating { key: k.clone(), iv: v.clone(), sizes });
         }
     }
     let (k, v) = key_ivs(ctx)[3].clone();
